@@ -119,6 +119,10 @@ pub struct Knobs {
     pub strategy: Strategy,
     /// value of the INCLUDE_DIR environment variable, if set
     pub include_dir: Option<String>,
+    /// the client spells URIs like VS Code (percent-encodes `+` and friends) instead of like
+    /// the url crate (leaves them literal); both are valid spellings of the same path
+    #[serde(default)]
+    pub vscode_uris: bool,
 }
 
 #[derive(Clone, Debug, PartialEq, Eq, Serialize, Deserialize)]
@@ -138,6 +142,7 @@ impl Scenario {
         h.u64(self.knobs.concurrency as u64);
         h.u64(self.knobs.out_capacity.map(|c| c as u64 + 1).unwrap_or(0));
         h.u64(self.knobs.include_dir.is_some() as u64);
+        h.u64(self.knobs.vscode_uris as u64);
         for op in &self.ops {
             h.str(op.kind_name());
             match op {
